@@ -1,0 +1,91 @@
+//go:build verif
+
+package proxy
+
+// Verification hooks for properties C21/C22 (secure-chat order, acknowledgement
+// conservation, command dispatch). Add-only, no behaviour change: builds the real
+// connectedPlayer + chatQueue + chatHandler + clientPlaySessionHandler over caller-supplied
+// connections, the same way newClientPlaySessionHandler does, but with the command manager,
+// event manager and config injected instead of being taken from a running *Proxy.
+
+import (
+	"github.com/go-logr/logr"
+	"github.com/robinbraemer/event"
+
+	"go.minekube.com/gate/pkg/command"
+	"go.minekube.com/gate/pkg/edition/java/config"
+	"go.minekube.com/gate/pkg/edition/java/netmc"
+	"go.minekube.com/gate/pkg/edition/java/profile"
+	"go.minekube.com/gate/pkg/gate/proto"
+	"go.minekube.com/gate/pkg/util/permission"
+)
+
+// VerifC21Options are the collaborators of the chat fixture.
+type VerifC21Options struct {
+	Client     netmc.MinecraftConn // the player's connection (its Protocol() decides the chat family)
+	Backend    netmc.MinecraftConn // the player's current backend connection
+	EventMgr   event.Manager
+	Commands   *command.Manager
+	Config     *config.Config
+	Profile    *profile.GameProfile
+	Permission permission.Func
+}
+
+type verifC21Config struct{ cfg *config.Config }
+
+func (c verifC21Config) config() *config.Config { return c.cfg }
+
+// VerifC21Chat is a connected player with a current server and a client play session handler.
+type VerifC21Chat struct {
+	player *connectedPlayer
+	play   *clientPlaySessionHandler
+}
+
+// VerifC21NewChat wires player, chat queue, server connection and session handler.
+func VerifC21NewChat(o VerifC21Options) *VerifC21Chat {
+	perm := o.Permission
+	if perm == nil {
+		perm = func(string) permission.TriState { return permission.Undefined }
+	}
+	player := &connectedPlayer{
+		MinecraftConn: o.Client,
+		log:           logr.Discard(),
+		profile:       o.Profile,
+		permFunc:      perm,
+	}
+	player.chatQueue = newChatQueue(player)
+	sc := &serverConnection{player: player, log: logr.Discard()}
+	sc.connection = o.Backend
+	player.connectedServer_ = sc
+	play := &clientPlaySessionHandler{
+		log:    logr.Discard(),
+		log1:   logr.Discard(),
+		player: player,
+		chatHandler: &chatHandler{
+			log:            logr.Discard(),
+			eventMgr:       o.EventMgr,
+			player:         player,
+			cmdMgr:         o.Commands,
+			configProvider: verifC21Config{o.Config},
+		},
+	}
+	return &VerifC21Chat{player: player, play: play}
+}
+
+// HandlePacket dispatches a decoded client packet through clientPlaySessionHandler.HandlePacket.
+func (c *VerifC21Chat) HandlePacket(p proto.Packet) {
+	c.play.HandlePacket(&proto.PacketContext{
+		Direction: proto.ServerBound,
+		Protocol:  c.player.Protocol(),
+		Packet:    p,
+	})
+}
+
+// Player returns the fixture's player.
+func (c *VerifC21Chat) Player() Player { return c.player }
+
+// HeldAcks reads ChatState.delayedAckCount of the player's current chat queue (diagnostics
+// only; the monitors decide on the backend-side packet stream).
+func (c *VerifC21Chat) HeldAcks() int {
+	return int(c.player.chatQueue.chatState.delayedAckCount.Load())
+}
